@@ -107,9 +107,12 @@ def main():
             found = None
             tries = [job['values']]
             n_search = 0 if job.get('exact') else (400 if not jit else 300)
+            if job.get('patched') and not job.get('exact'):
+                n_search = -1          # stubs / patched constants: only a run of the unpatched code counts
+                found = dict(values=job['values'], detail='symbolic counterexample under stub', fid=None, how='model')
             for k in range(n_search + 1):
                 vals = job['values'] if k == 0 else _perturb(job['values'], rng, k)
-                out = run_unit_float(u, vals, jit=jit, unpatched=False)
+                out = run_unit_float(u, vals, jit=jit, unpatched=bool(job.get('unpatched')), rng=random.Random(0) if job.get('unpatched') else None)
                 if out['outcome'] in ('assumption-failed', 'engine'):
                     continue
                 v, detail, fid = _violated(out, job['obligation'])
@@ -124,21 +127,22 @@ def main():
             if job.get('patched'):
                 # patched constants / stubs were used: confirm with the unpatched code
                 found2 = None
-                for k in range(1500):
+                for k in range(600):
                     vals = found['values'] if k == 0 else _perturb(found['values'], rng, k + 3)
-                    out = run_unit_float(u, vals, jit=jit, unpatched=True)
+                    out = run_unit_float(u, vals, jit=jit, unpatched=True, rng=random.Random(rng.random()))
                     if out['outcome'] in ('assumption-failed', 'engine'):
                         continue
                     v, detail, fid = _violated(out, job['obligation'])
                     if v and (want_fid is None or fid == want_fid):
-                        found2 = dict(values=vals, detail=detail, fid=fid, how='unpatched-search(%d)' % k)
+                        found2 = dict(values=out.get('values', vals), detail=detail, fid=fid, how='unpatched-search(%d)' % k,
+                                      unpatched=True)
                         break
                 if found2 is None:
                     results.append(dict(reproduced=False,
                                         detail='reproduced only with patched constants; unpatched search failed: ' + str(found['detail'])))
                     continue
                 found = found2
-            results.append(dict(reproduced=True, values={k: (v if isinstance(v, str) else repr(v)) for k, v in found['values'].items()},
+            results.append(dict(reproduced=True, unpatched=bool(found.get('unpatched')), values={k: (v if isinstance(v, str) else repr(v)) for k, v in found['values'].items()},
                                 detail=found['detail'], how=found['how'], known_pred=found['fid'] if job['kind'] == 'violation' else None))
         except Exception as e:
             import traceback
